@@ -247,6 +247,21 @@ fn inputs(ctx: &mut Ctx) -> Vec<Input> {
             out.push(Input { name: format!("pseudo-toroidal cover of corpus symbol {}", text), s: c, ptc: true, rigid: true, corpus: true, known: None });
         }
     }
+    // the duals of the corpus symbols (euclidean like their originals; a different tile/vertex structure goes into
+    // the same simplification)
+    for (text, s) in corpus() {
+        let d = s.dual();
+        if d.iso_key_bfs() == s.iso_key_bfs() {
+            continue; // self-dual
+        }
+        if let Some(c) = ptc_of(&d) {
+            out.push(Input { name: format!("pseudo-toroidal cover of the dual of corpus symbol {}", text), s: c, ptc: true, rigid: true, corpus: true, known: None });
+        }
+    }
+    if std::env::var("VERIF_C16_ONLY_DUALS").is_ok() {
+        out.retain(|i| i.name.contains("the dual of corpus"));
+        return out;
+    }
     for n in 1..=tier.pick(3, 4) {
         for s in admissible_symbols(n) {
             if let Some(c) = ptc_of(&s) {
@@ -328,6 +343,9 @@ fn run(ctx: &mut Ctx) {
         torus_cover_family(ctx);
         ctx.add("cpu_us_torus_cover_family", t0.elapsed().as_micros() as i64);
     }
+    if ctx.nviolations() == 0 && ctx.take() {
+        recorded_torus_cover(ctx);
+    }
 }
 
 /// family (d): the 2-sheeted covers of the pseudo-toroidal cover of every corpus symbol (3-tori again, of twice
@@ -368,6 +386,28 @@ fn torus_cover_family(ctx: &mut Ctx) {
             }
         }
     }
+}
+
+/// LAST: the recorded finding.  One fixed numbering of the pseudo-toroidal cover of the dual of the corpus symbol
+/// 553.3 (a 3-torus, 192 chambers; /verif/data/c16_torus_cover_192.json) on which simplify returns None under
+/// the default schedule, i.e. the euclidicity test would call a euclidean symbol a lens space.
+fn recorded_torus_cover(ctx: &mut Ctx) {
+    let path = std::path::Path::new(&verif_dir()).join("data").join("c16_torus_cover_192.json");
+    let v: Value = match std::fs::read_to_string(&path).ok().and_then(|t| serde_json::from_str(&t).ok()) {
+        Some(v) => v,
+        None => {
+            ctx.cap_hit(format!("{} is missing: the recorded 192-chamber input was NOT run", path.display()));
+            return;
+        }
+    };
+    let ops: Vec<Vec<usize>> = v["set"].as_array().map(|a| a.iter().map(|o| usize_list(o).into_iter().map(|x| x - 1).collect()).collect()).unwrap_or_default();
+    if ops.len() != 4 {
+        return;
+    }
+    let s = RS::from_ops(ops);
+    let inp = Input { name: "pseudo-toroidal cover of the dual of corpus symbol <553.3:4 3:2 4,1 2 3 4,3 4,2 4:4 6,2 6,4> in the recorded numbering".into(), s, ptc: true, rigid: true, corpus: true, known: Some((vec![0, 0, 0], vec![1, 7, 13])) };
+    let id: Vec<usize> = (0..inp.s.n).collect();
+    check_unit_bound(ctx, &inp, "identity", &id, &None, Some(0));
 }
 
 /// family (b'): manifold covers of every small 3-dimensional symbol with spherical tiles and vertex figures
